@@ -127,6 +127,11 @@ type Fn struct {
 	// "provide" / "decorate" (of a key type no generated function uses).
 	Side  string `json:"side,omitempty"`
 	SideS int    `json:"sides,omitempty"`
+	// SideFn (Side == "provide-key"): during its first execution the body
+	// provides this constructor (no parameters, one fresh single key that no
+	// registered function consumes at that time) to scope SideS; later
+	// operations may consume the key.
+	SideFn *Fn `json:"sidefn,omitempty"`
 }
 
 type Reenter struct {
@@ -387,7 +392,11 @@ func (f *Fn) Short() string {
 		s += fmt.Sprintf("#bank%d", f.Bank-1)
 	}
 	if f.Side != "" {
-		s += fmt.Sprintf("{body: %s@%d}", f.Side, f.SideS)
+		if f.SideFn != nil {
+			s += fmt.Sprintf("{body: provide@%d %s}", f.SideS, f.SideFn.Short())
+		} else {
+			s += fmt.Sprintf("{body: %s@%d}", f.Side, f.SideS)
+		}
 	}
 	if f.Reenter != nil {
 		var ps []string
